@@ -33,6 +33,7 @@ type E2EParams struct {
 	Shapes    int    `json:"shapes"`    // C09: number of QER-list shapes to run (enumeration starts at ShapeFrom, stride ShapeStep)
 	ShapeFrom int    `json:"shapeFrom"`
 	ShapeStep int    `json:"shapeStep"`
+	Snap      bool   `json:"snap"`      // attach the guarded state snapshot to every step
 	QosMode   int    `json:"qosMode"`
 	FarBias   bool   `json:"farBias"`   // C14: most modifications are FAR updates
 	HoldFarMs int    `json:"holdFarMs"` // C14: delay of farLookup add while a modification with SNDEM is processed // 1: always configure per-QFI bursts with distinct cbs / pbs / ebs
@@ -117,6 +118,7 @@ func e2eRandWorker(args []string) error {
 		}
 
 		w.HoldFar = time.Duration(p.HoldFarMs) * time.Millisecond
+		w.SnapEvery = p.Snap
 
 		return w.StartAgent()
 	}
